@@ -95,7 +95,7 @@ class AtomSelection:
             if min(sel_indices) < 0 or max(sel_indices) >= len(atoms):
                 raise ValueError("Invalid indices for given Atoms object")
 
-        self._indices = np.array(sel_indices)
+        self._indices = np.array(sel_indices, dtype=int)
 
         if authenticate:
             # Create an hash for certification
